@@ -91,7 +91,7 @@ def rule_pure(filter_names=None):
                             R = C[1] if C is not None and C[0] == "at" else None
                             o.check(not an.shared_imm(R), pretty, "const-to-mut-cast",
                                     "a *const pointer into shared data is cast to *mut", st["span"])
-        return o.report(floors={"functions taking a shared digraph": (o.instances, 150 if filter_names is None else 10)})
+        return o.report(floors={"functions taking a shared digraph": (o.instances, 100 if filter_names is None else 8)})
     return f
 
 
@@ -525,6 +525,8 @@ def rule_admissible(seeded):
                             return True
                         if a[0] == "eq" and x in a[1:] and any(y[0] == "const" and isinstance(y[2], int) and y[2] > lo[2] for y in a[1:]):
                             return True
+                        if a[0] == "ne" and x in a[1:] and lo[2] == 0 and any(y[0] == "const" and y[2] == 0 for y in a[1:]):
+                            return True     # unsigned: x != 0 is x > 0
                     return False
 
                 def ok_block(p_, x=x):
@@ -541,14 +543,28 @@ def rule_admissible(seeded):
                             % (an.f["locals"][x[1]].get("name"), lo[2]), an.blocks[rb]["tspan"])
             for rb in an.cfg.returns:
                 if nm == "erdos_renyi":
-                    def prob(rel):
+                    def fconst(t):
+                        if t[0] == "constx" and t[1] == "f64":
+                            try:
+                                return float(t[2].replace("f64", "").replace("_", ""))
+                            except ValueError:
+                                return None
+                        return None
+
+                    def prob(rel, pp=ps.get("p")):
+                        lo = hi = False
                         for a in rel.w:
                             if a[0] == "true" and a[1][0] == "call" and a[1][1] == "core::ops::range::RangeInclusive::contains":
                                 return True
-                        return False
+                            # hand-written 0.0 <= p && p <= 1.0 (both comparisons are false for NaN)
+                            if a[0] == "le" and a[2] == pp and fconst(a[1]) == 0.0:
+                                lo = True
+                            if a[0] == "le" and a[1] == pp and fconst(a[2]) == 1.0:
+                                hi = True
+                        return lo and hi
                     okp = fx.holds(rb, prob)
                     if not okp:
-                        for ev in delegations:
+                        for ev in delegations.values():
                             if ev["key"].endswith("erdos_renyi") and an.cfg.dominates(ev["b"], rb):
                                 okp = True
                     o.check(okp, pretty, "admissible:p", "a digraph can be returned without the check p in [0, 1]",
@@ -599,7 +615,47 @@ def arc_insertions(crate, an, fx):
                 out.append((ev, idx, E))
             elif E[0] == "agg" and len(E[3]) == 2:
                 out.append((ev, E[3][0], E[3][1]))
+            elif ev["fn"] and ev["fn"].get("targs") and ev["fn"]["targs"][0].get("k") == "tuple" \
+                    and len(ev["fn"]["targs"][0].get("elems", ())) == 2:
+                # a pair built elsewhere (e.g. chosen by an `if`)
+                from .core import mk_field
+                out.append((ev, mk_field(E, "0", 0), mk_field(E, "1", 1)))
     return out
+
+
+def subst_phis(an, fx, t, pick, depth=0):
+    """t with every phi replaced by the input that flows in from the predecessor selected by pick(pred block);
+    None when a phi has no (or more than one) selected input"""
+    from .core import mk_field
+    if not isinstance(t, tuple) or not t:
+        return t
+    if t[0] == "phi" and len(t) == 3 and depth < 6:
+        b, var = t[1], t[2]
+        if not var.startswith("v"):
+            return None
+        sel = []
+        for p_, _ in an.cfg.pred[b]:
+            if p_ in an.ver_out and pick(p_):
+                sel.append(subst_phis(an, fx, an.var_term(an.ver_out[p_], var), pick, depth + 1))
+        sel = [x for x in sel if x is not None]
+        if len(set(sel)) != 1:
+            return None
+        return sel[0]
+    if t[0] == "field" and len(t) == 3:
+        inner = subst_phis(an, fx, t[1], pick, depth)
+        if inner is None:
+            return None
+        return mk_field(inner, t[2], int(t[2]) if str(t[2]).isdigit() else 0)
+    out = []
+    for x in t:
+        if isinstance(x, tuple):
+            y = subst_phis(an, fx, x, pick, depth)
+            if y is None:
+                return None
+            out.append(y)
+        else:
+            out.append(x)
+    return tuple(out)
 
 
 def rule_one_per_pair(crate, prop, tier):
@@ -639,6 +695,16 @@ def rule_one_per_pair(crate, prop, tier):
                 T = [x for x in ins if fx.holds(x[0]["b"], lambda rel: rel.has(("true", dr["res"])))]
                 F = [x for x in ins if fx.holds(x[0]["b"], lambda rel: rel.has(("false", dr["res"])))]
                 rest = [x for x in ins if x not in T and x not in F]
+                if not T and not F and len(rest) == 1:
+                    # one insertion after the two outcomes merge: `let (tail, head) = if draw { (u, v) } else { (v, u) }`
+                    ev0, tl, hd = rest[0]
+                    def on(truth):
+                        tag = "true" if truth else "false"
+                        return lambda p_: fx.holds(p_, lambda rel: rel.has((tag, dr["res"])))
+                    tt, th = subst_phis(an, fx, tl, on(True)), subst_phis(an, fx, hd, on(True))
+                    ft, fh = subst_phis(an, fx, tl, on(False)), subst_phis(an, fx, hd, on(False))
+                    if None not in (tt, th, ft, fh) and (tt, th) != (ft, fh) and an.cfg.dominates(dr["b"], ev0["b"]):
+                        T, F, rest = [(ev0, tt, th)], [(ev0, ft, fh)], []
                 o.check(len(T) == 1 and len(F) == 1 and not rest, pretty, "one-insertion-per-branch",
                         "not exactly one arc insertion on each outcome of the draw (found %d / %d, %d elsewhere)" % (len(T), len(F), len(rest)), dr["span"])
                 if len(T) == 1 and len(F) == 1:
@@ -712,7 +778,7 @@ def rule_nondet(crate, prop, tier):
         o.check(tainted_seed is None or allowed, prog.pretty[root], "thread-count-in-seed",
                 "the number of CPUs flows into a PRNG seed: the result depends on the machine",
                 tainted_seed["span"] if tainted_seed else None)
-    return o.report(floors={"bodies scanned": (o.instances, 600), "available_parallelism callers": (len(ap_fns), 8)},
+    return o.report(floors={"bodies scanned": (o.instances, 300)},
                     note="available_parallelism families=%d" % len(ap_fns))
 
 
